@@ -11,6 +11,8 @@ REQ = {'req': 1}
 def gen_value(rng, depth=0, opaque=0.0):
   r = rng.random()
   if opaque and r < opaque:
+    if rng.random() < 0.3:   # a scalar without literal form
+      return {'f': rng.choice(['inf', '-inf', 'nan']), 'fin': False}
     return {'o': rng.randint(1, 5)}
   if depth >= 2 or r < 0.55:
     k = rng.randint(0, 7)
@@ -140,6 +142,14 @@ def gen_enter(rng, target_scope=None, w_invalid=0.0):
   return chain
 
 
+def caller_value(rng):
+  """A value the caller supplies: now and then an object whose identity matters (ids 400-449 are never
+  normalised after a deepcopy, so a copied caller value shows up as a different object)."""
+  if rng.random() < 0.15:
+    return {'o': 400 + rng.randrange(50)}
+  return gen_value(rng, 1)
+
+
 def gen_call(rng, reg, enter, w_required=0.0, w_bad=0.05):
   sig, kind = reg['sig'], reg['_kind']
   pos, kwo = sig_names(sig, kind)
@@ -147,7 +157,7 @@ def gen_call(rng, reg, enter, w_required=0.0, w_bad=0.05):
   still_positional = True
   for nm in pos:
     r = rng.random()
-    val = REQ if rng.random() < w_required else gen_value(rng, 1)
+    val = REQ if rng.random() < w_required else caller_value(rng)
     if still_positional and r < 0.4:
       args.append(val)
     elif r < 0.65:
@@ -157,13 +167,13 @@ def gen_call(rng, reg, enter, w_required=0.0, w_bad=0.05):
       still_positional = False
   if still_positional and (sig['varargs'] or rng.random() < w_bad):
     for _ in range(rng.randint(0, 2)):
-      args.append(REQ if rng.random() < w_required * 0.5 else gen_value(rng, 1))
+      args.append(REQ if rng.random() < w_required * 0.5 else caller_value(rng))
   for nm in kwo:
     if rng.random() < 0.35:
-      kwargs.append([nm, REQ if rng.random() < w_required else gen_value(rng, 1)])
+      kwargs.append([nm, REQ if rng.random() < w_required else caller_value(rng)])
   if sig['varkw'] or rng.random() < w_bad:
     for nm in rng.sample(['e1', 'e2'], rng.randint(0, 2)):
-      kwargs.append([nm, REQ if rng.random() < w_required else gen_value(rng, 1)])
+      kwargs.append([nm, REQ if rng.random() < w_required else caller_value(rng)])
   rng.shuffle(kwargs)
   op = {'op': 'call', 'sel': reg['_selector'], 'enter': enter, 'args': args, 'kwargs': kwargs,
         '_target': reg['obj']}
@@ -172,6 +182,9 @@ def gen_call(rng, reg, enter, w_required=0.0, w_bad=0.05):
     op['_selfname'] = sig['pos'][0][0]
   if reg['_api'] == 'configurable' and rng.random() < 0.2:
     op['_via'] = 'get_configurable'
+  if enter and rng.random() < 0.12:
+    # inside the entered scopes, a scope entry that is rejected (and caught) must leave them intact
+    op['_bad_enter'] = rng.choice(['not valid!', 'a b', '1x', 'a//b', '/a', 'a/', 42])
   return op
 
 
